@@ -390,7 +390,13 @@ pub fn txs_to_csv_table(txs: &Vec<CsvTx>) -> PlainCsvTable {
                     .as_ref()
                     .map(|v| v.name().to_string())
                     .unwrap_or_else(empty),
-                CsvCol::MEMO => tx.memo.clone().unwrap_or_else(empty),
+                // The reader trims every cell: write the memo as it will be
+                // read back, so that a re-written file is byte-identical.
+                CsvCol::MEMO => tx
+                    .memo
+                    .as_ref()
+                    .map(|v| v.trim().to_string())
+                    .unwrap_or_else(empty),
                 _ => panic!("Invalid col {}", col),
             };
             record.push(val);
